@@ -56,7 +56,7 @@ func runCmd(args []string) {
 		fmt.Println("exec error:", err)
 		os.Exit(2)
 	}
-	fmt.Printf("executed: %d instrs, %d terms, %d obligations, %d assumes in %v\n", x.NInstr, x.U.NumTerms(), len(x.Obligs), len(x.Assumes), time.Since(t0))
+	fmt.Printf("executed: %d instrs, %d terms, %d obligations, %d assumes in %v (feasibility queries %d, pruned %d, %v)\n", x.NInstr, x.U.NumTerms(), len(x.Obligs), len(x.Assumes), time.Since(t0), x.FeasQ, x.FeasPruned, x.FeasTime)
 	r := eng.Discharge(x, inst, eng.SolveOpts{Solver: *solver, LogFile: *logf})
 	fmt.Printf("status=%s err=%q queries=%d (unsat %d sat %d unknown %d) solver=%v reach %d/%d\n", r.Status, r.Err, r.Queries, r.Unsat, r.Sat, r.Unknown, r.SolverTime, r.ReachSat, r.ReachTotal)
 	for _, v := range r.Violations {
